@@ -18,17 +18,17 @@ pub(crate) struct MemoryStats {
 impl MemoryStats {
     fn cache_hit(&self) {
         let current = self.cache_hits.get();
-        self.cache_hits.set(current + 1);
+        self.cache_hits.set(current.saturating_add(1));
     }
 
     fn cache_miss(&self) {
         let current = self.cache_misses.get();
-        self.cache_misses.set(current + 1);
+        self.cache_misses.set(current.saturating_add(1));
     }
 
     fn eviction(&self) {
         let current = self.frames_evicted.get();
-        self.frames_evicted.set(current + 1);
+        self.frames_evicted.set(current.saturating_add(1));
     }
 }
 impl Display for MemoryStats {
